@@ -440,3 +440,250 @@ def all_edge_atoms_full(P, F, body):
         for lab, v in switch_bool_labels(body, flow, cfg, sb).items():
             out[(sb, lab)] = (at, v)
     return out
+
+
+# ---------------------------------------------------------------------------------------------------------
+# Linear (base + constant) values along paths: "which slot offset does this function return / pass on, as a function of the flags"
+def lin_paths(P, F, body, base_call=None, event_call=None, inline=None, max_paths=20000):
+    """[(assign {atom: value}, result, events)] over the acyclic, non-error paths of `body`.
+    Values tracked per local: ('int', n) | ('lin', base, k) | booleans/atoms as in bool_paths.
+      base_call(callee_key) -> base name or None: calls whose (unwrapped) result is a new base, e.g. Resolution::got_address -> 'got'
+      inline: {callee_key: table as returned by lin_paths} - calls to these are replaced by their own (assign, result) rows
+      event_call(callee_key) -> tag or None: calls recorded as (tag, [argument values]) in `events`
+    result: the value wrapped in the returned Ok(..) / returned directly; error returns (Err aggregates, from_residual) are dropped."""
+    from mir import NOT_FNS, is_transparent
+    flow, cfg = P.flow(body), P.cfg(body)
+    out = []
+    base_call = base_call or (lambda k: None)
+    event_call = event_call or (lambda k: None)
+    inline = inline or {}
+
+    def val_of_op(env, op):
+        if op[0] == "k":
+            c = op[1]
+            v = c.get("val")
+            if c.get("ty") == "bool" and v is not None:
+                return ("k", bool(v))
+            if isinstance(v, int):
+                return ("int", v)
+            return None
+        pl = op[1]
+        v = env.get(pl[0])
+        proj = [x for x in pl[1] if x != "*"]
+        if not proj:
+            if v is None and 1 <= pl[0] <= body.d["argc"]:
+                if body.locals[pl[0]].strip() in ("bool", "&bool"):
+                    return ("atom", "place:" + _place_name(body, (pl[0], [])), True)
+                return ("lin", "param:" + (body.local_name(pl[0]) or f"_{pl[0]}"), 0)
+            return v
+        if v is not None and v[0] == "pair" and proj == [".0"]:
+            return v[1]
+        if v is not None and v[0] == "cf" and proj == ["@Continue", ".0"]:
+            return v[1]
+        if v is not None and v[0] == "wrap" and proj in (["@Ok", ".0"], ["@Some", ".0"]):
+            return v[1]
+        if body.locals[pl[0]].strip() in ("bool",) or proj:
+            # a field place used as a boolean
+            return ("atom", "place:" + _place_name(body, pl), True)
+        return None
+
+    def arith(op, a, b):
+        if a is None or b is None:
+            return None
+        if a[0] == "int" and b[0] == "int":
+            return ("int", {"Add": a[1] + b[1], "Sub": a[1] - b[1], "Mul": a[1] * b[1]}[op])
+        if op == "Add" and a[0] == "lin" and b[0] == "int":
+            return ("lin", a[1], a[2] + b[1])
+        if op == "Add" and a[0] == "int" and b[0] == "lin":
+            return ("lin", b[1], b[2] + a[1])
+        if op == "Sub" and a[0] == "lin" and b[0] == "int":
+            return ("lin", a[1], a[2] - b[1])
+        return None
+
+    def neg(v):
+        if v is None:
+            return None
+        if v[0] == "k":
+            return ("k", not v[1])
+        if v[0] == "atom":
+            return ("atom", v[1], not v[2])
+        return None
+
+    def step_stmt(env, s):
+        if s["k"] != "assign":
+            return
+        dst, dproj = s["p"]
+        if dproj:
+            return
+        rv = s["rv"]
+        k = rv["k"]
+        if k in ("use", "cast"):
+            env[dst] = val_of_op(env, rv["a"])
+        elif k == "ref":
+            env[dst] = val_of_op(env, ("c", rv["p"]))
+        elif k == "un" and rv["op"] == "Not":
+            env[dst] = neg(val_of_op(env, rv["a"]))
+        elif k == "bin":
+            op = rv["op"]
+            base = op.replace("WithOverflow", "").replace("Unchecked", "")
+            if base in ("Add", "Sub", "Mul"):
+                r = arith(base, val_of_op(env, rv["a"]), val_of_op(env, rv["b"]))
+                env[dst] = ("pair", r) if op.endswith("WithOverflow") else r
+            elif base in ("Eq", "Ne", "Lt", "Le", "Gt", "Ge"):
+                tr = render(simplify(("bin", op, expr_tree(P, body, rv["a"], depth=4, expand_params=0), expr_tree(P, body, rv["b"], depth=4, expand_params=0))))
+                env[dst] = ("atom", "bin:" + tr, True)
+            else:
+                env[dst] = None
+        elif k == "discr":
+            v = env.get(rv["p"][0])
+            if v is not None and v[0] in ("cf", "wrap"):
+                env[dst] = ("discr-of", v[0])
+            else:
+                nm = _place_name(body, (rv["p"][0], list(rv["p"][1])))
+                if nm.startswith("_") and not body.local_name(rv["p"][0]):
+                    nm = render(simplify(expr_tree(P, body, ("c", (rv["p"][0], [])), depth=3, expand_params=0))) + "".join(x for x in rv["p"][1] if x != "*")
+                env[dst] = ("discr", "variant:" + nm)
+        elif k == "agg":
+            if rv.get("ak") == "adt" and rv.get("variant") in ("Ok", "Some") and rv["ops"]:
+                env[dst] = ("wrap", val_of_op(env, rv["ops"][0]))
+            elif rv.get("ak") == "adt" and rv.get("variant") == "Err":
+                env[dst] = ("err",)
+            else:
+                env[dst] = None
+        else:
+            env[dst] = None
+
+    def walk(bi, env, assign, onpath, events):
+        if len(out) > max_paths:
+            raise NotLoopFree("too many paths")
+        if bi in onpath:
+            raise NotLoopFree(f"bb{bi} revisited")
+        onpath = onpath | {bi}
+        blk = body.blocks[bi]
+        env = dict(env)
+        for s in blk["s"]:
+            step_stmt(env, s)
+        t = blk["t"]
+        k = t["k"]
+        if k == "return":
+            v = env.get(0)
+            if v is not None and v[0] == "err":
+                return
+            if v is not None and v[0] == "wrap":
+                v = v[1]
+            out.append((assign, v, list(events)))
+            return
+        if k in ("goto", "drop", "assert", "falseedge"):
+            if t.get("to") is not None:
+                walk(t["to"], env, assign, onpath, events)
+            return
+        if k == "call":
+            key = callee_key(t["f"]) or ""
+            dst, dproj = t["dest"]
+            nxt = t.get("to")
+            tag = event_call(key)
+            if tag:
+                events = events + [(tag, [val_of_op(env, a) for a in t["args"]])]
+            if key.endswith("from_residual"):
+                return            # error propagation
+            if dproj:
+                if nxt is not None:
+                    walk(nxt, env, assign, onpath, events)
+                return
+            if key in inline:
+                for cassign, cres, _cev in inline[key]:
+                    if any(a in assign and assign[a] != v for a, v in cassign.items()):
+                        continue
+                    a2 = dict(assign)
+                    a2.update(cassign)
+                    e2 = dict(env)
+                    e2[dst] = ("wrap", cres)
+                    if nxt is not None:
+                        walk(nxt, e2, a2, onpath, events)
+                return
+            b = base_call(key)
+            if b:
+                env[dst] = ("wrap", ("lin", b, 0)) if "Result" in body.locals[dst] or "Option" in body.locals[dst] else ("lin", b, 0)
+            elif (key in NOT_FNS or key.endswith("as std::ops::Not>::not")) and t["args"]:
+                env[dst] = neg(val_of_op(env, t["args"][0]))
+            elif key.endswith("Try>::branch") or key == "std::ops::Try::branch":
+                v = val_of_op(env, t["args"][0])
+                env[dst] = ("cf", v[1]) if v is not None and v[0] == "wrap" else ("cf", None)
+            elif key.endswith("Context>::context") or key.endswith("Context::context") or key.endswith("::with_context") or key.endswith("Option::ok_or") or key.endswith("::ok_or_else"):
+                v = val_of_op(env, t["args"][0])
+                env[dst] = v if v is not None and v[0] == "wrap" else ("wrap", v)
+            elif key.endswith("::get") and "NonZero" in key and t["args"] and op_place(t["args"][0]):
+                # the integer inside a NonZero place: a base named after the place it was read from
+                pl0 = op_place(t["args"][0])
+                nm0 = render(simplify(expr_tree(P, body, t["args"][0], depth=4, expand_params=0)))
+                v0 = val_of_op(env, t["args"][0])
+                env[dst] = v0 if v0 is not None and v0[0] == "lin" else ("lin", "nz:" + nm0, 0)
+            elif is_transparent(key) and t["args"]:
+                env[dst] = val_of_op(env, t["args"][0])
+            elif body.locals[dst].strip() == "bool":
+                env[dst] = ("atom", call_atom(P, body, flow, t), True)
+            else:
+                env[dst] = None
+            if nxt is not None:
+                walk(nxt, env, assign, onpath, events)
+            return
+        if k == "switch":
+            v = val_of_op(env, t["d"]) if op_place(t["d"]) is not None else None
+            succ = cfg.succ[bi]
+            if t["dty"] == "bool":
+                listed = {a for a, _ in t["arms"]}
+
+                def truth(lab):
+                    if lab == 0:
+                        return False
+                    if lab == 1:
+                        return True
+                    if lab == "else":
+                        return True if listed == {0} else (False if listed == {1} else None)
+                    return None
+                if v is None or v[0] not in ("k", "atom"):
+                    v = ("atom", f"?bb{bi}", True)
+                for lab, tgt in succ:
+                    tv = truth(lab)
+                    if tv is None:
+                        continue
+                    if v[0] == "k":
+                        if v[1] == tv:
+                            walk(tgt, env, assign, onpath, events)
+                        continue
+                    name, pol = v[1], v[2]
+                    want = tv if pol else (not tv)
+                    if name in assign:
+                        if assign[name] == want:
+                            walk(tgt, env, assign, onpath, events)
+                        continue
+                    a2 = dict(assign)
+                    a2[name] = want
+                    walk(tgt, env, a2, onpath, events)
+                return
+            if v is not None and v[0] == "discr-of":
+                # `?` on a modelled Result / `let Some(x) = modelled else`: follow the success arm only
+                es = enum_switch(F, body, flow, cfg, bi)
+                for lab, tgt in succ:
+                    names = es[1].get(lab) if es else None
+                    if names and names & {"Continue", "Ok", "Some"}:
+                        walk(tgt, env, assign, onpath, events)
+                return
+            es = enum_switch(F, body, flow, cfg, bi)
+            name = v[1] if (v is not None and v[0] == "discr") else f"switch:bb{bi}"
+            for lab, tgt in succ:
+                val = "|".join(sorted(es[1][lab])) if es and es[1].get(lab) else f"={lab}"
+                if name in assign:
+                    if assign[name] == val:
+                        walk(tgt, env, assign, onpath, events)
+                    continue
+                a2 = dict(assign)
+                a2[name] = val
+                walk(tgt, env, a2, onpath, events)
+            return
+        return
+
+    import sys as _sys
+    _sys.setrecursionlimit(10000)
+    walk(0, {}, {}, frozenset(), [])
+    return out
